@@ -255,4 +255,18 @@ theorem upd_self_eq {P : Nat → Bool} {p : Nat} {b : Bool} (h : P p = b) : upd 
   · subst_vars; rfl
   · rfl
 
+/-! ### growing the range by positions outside the chain -/
+
+theorem nextOcc_extend {P : Nat → Bool} {L L' q : Nat} (hL : L ≤ L') (h : ∀ k, L ≤ k → P k = false) :
+    nextOcc P L' q = nextOcc P L q := by
+  cases h2 : nextOcc P L q <;> chain_finish
+
+theorem firstOcc_extend {P : Nat → Bool} {L L' : Nat} (hL : L ≤ L') (h : ∀ k, L ≤ k → P k = false) :
+    firstOcc P L' = firstOcc P L := by
+  cases h2 : firstOcc P L <;> chain_finish
+
+theorem lastOcc_extend {P : Nat → Bool} {L L' : Nat} (hL : L ≤ L') (h : ∀ k, L ≤ k → P k = false) :
+    lastOcc P L' = lastOcc P L := by
+  cases h2 : lastOcc P L <;> chain_finish
+
 end Qmc
